@@ -171,5 +171,12 @@ def loop_time(loop):
         if v.meta.get("loopvar") is loop and nf_equal(v.nf, lv):
             rng = loop.info.get("range")
             if rng is not None:
+                # a plain counter that only selects the element of an arange (`t = grid[step]` at the top of the body): the
+                # time variable is that element, running through the whole arange when the counter runs through its length
+                if rng[0].as_const() == 0 and rng[2].as_const() == 1:
+                    for w in (loop.info.get("body_env") or {}).values():
+                        ae = w.meta.get("arange_elem") if isinstance(w, Num) else None
+                        if ae is not None and nf_equal(ae[1], lv) and ae[0][2].as_const() == 1 and nf_equal(ae[0][1] - ae[0][0], rng[1]):
+                            return w.nf, (ae[0][0], ae[0][1], ae[0][2])
                 return v.nf, rng
     raise Undecided("main loop target is not an element of a unit-step integer range")
